@@ -132,6 +132,11 @@ type retainedEvent struct {
 	snap string
 }
 
+// listener returns the listener with that id. All listeners of a case are closures over one
+// function literal, as listeners made by a factory or in a loop are (not inlined: an inlined
+// copy per call site would give each its own code).
+//
+//go:noinline
 func (h *harness) listener(id string) func(*res.Event) {
 	return func(e *res.Event) {
 		snap := eventSnapshot(id, e)
@@ -990,7 +995,7 @@ func genCall(t *rapid.T, class string) EvCall {
 			c.Rev = &v
 		}
 	case "custom":
-		c.Name = rapid.SampledFrom([]string{"foo", "bar", "custom", "change", "delete", "add", "remove", "patch", "reaccess", "unsubscribe", "query", "a.b", "", "a b", "x*", "~ok", "ändrad", "日本", "ok\u2028", "\x80"}).Draw(t, "name")
+		c.Name = rapid.SampledFrom([]string{"foo", "bar", "custom", "change", "delete", "add", "remove", "patch", "reaccess", "unsubscribe", "query", "a.b", "", "a b", "x*", "~ok", "$set", "$", "a$b", "!#%&()+,-/:;<=@[]^_`{|}", "ändrad", "日本", "ok\u2028", "\x80"}).Draw(t, "name")
 		if rapid.Bool().Draw(t, "haspayload") {
 			v := gen.Val{Kind: "json", JSON: gen.JSONText(2).Draw(t, "payload")}
 			c.V = &v
